@@ -64,8 +64,8 @@ var constructs = []construct{
 		reject: func(b string) bool { return strings.HasPrefix(b, "--") }},
 	{name: "pi", ctx: li.VerifH5CtxData, lead: "<?", alpha: []string{">", "x", "?", "<", "-"}, typ: tTagComment, term: idxTerm(">"),
 		extra: []string{"[CDATA[x]]>y>", "[CDATA[", "doctype x>y>", "DOCTYPE>", "--x>y-->z", "--", "-->", "%>x>", "xml?>"}},
-	{name: "doctype", ctx: li.VerifH5CtxData, lead: "<!", inTok: "doctype", alpha: []string{">", "x", " ", "<", "!"}, typ: tDocType, term: idxTerm(">")},
-	{name: "DocType", ctx: li.VerifH5CtxData, lead: "<!", inTok: "DocTYPE", alpha: []string{">", "x", " ", "<", "-"}, typ: tDocType, term: idxTerm(">")},
+	{name: "doctype", ctx: li.VerifH5CtxData, lead: "<!", inTok: "doctype", alpha: []string{">", "x", " ", "'", "\""}, typ: tDocType, term: idxTerm(">")},
+	{name: "DocType", ctx: li.VerifH5CtxData, lead: "<!", inTok: "DocTYPE", alpha: []string{">", "x", "\"", "<", "\x00"}, typ: tDocType, term: idxTerm(">")},
 	{name: "sq-embedded", ctx: li.VerifH5CtxData, lead: "<a b='", alpha: []string{"'", "\"", ">", "x", " "}, typ: tAttrValue, term: idxTerm("'")},
 	{name: "dq-embedded", ctx: li.VerifH5CtxData, lead: "<a b=\"", alpha: []string{"\"", "'", ">", "x", "="}, typ: tAttrValue, term: idxTerm("\"")},
 	{name: "bq-embedded", ctx: li.VerifH5CtxData, lead: "<a b=`", alpha: []string{"`", "'", ">", "x", "/"}, typ: tAttrValue, term: idxTerm("`")},
